@@ -204,6 +204,100 @@ fn ser<T: SerChunky>(name: &str, alpha: Vec<T::Item>, depth: usize) -> Box<dyn C
     Box::new(Bfs::new(SerSpec::<T> { alpha_name: name.into(), alpha, words }, depth))
 }
 
+/// Long streams with a checkpoint at EVERY position: every word of length <= `max_word`
+/// repeated to n; after each add the estimator is round-tripped, compared bit-for-bit
+/// (Debug string and every accessor) with the uninterrupted one, and the computation then
+/// continues on the RESTORED copy next to the uninterrupted one.
+pub struct SerLasso<T: SerChunky> {
+    pub alpha_name: String,
+    pub alpha: Vec<T::Item>,
+    pub max_word: usize,
+    pub n: usize,
+}
+impl<T: SerChunky> SerLasso<T> {
+    fn words(&self) -> Vec<Vec<T::Item>> {
+        let idx: Vec<f64> = (0..self.alpha.len()).map(|i| i as f64).collect();
+        let mut out = Vec::new();
+        for l in 1..=self.max_word {
+            for w in all_lists(&idx, l) {
+                out.push(w.into_iter().map(|i| self.alpha[i as usize]).collect());
+            }
+        }
+        out
+    }
+    fn run_word(&self, w: &[T::Item]) -> (u64, Vec<(Violation, usize)>) {
+        let mut plain = T::fresh();
+        let mut restored = T::fresh();
+        let mut steps = 0u64;
+        for k in 1..=self.n {
+            let it = w[(k - 1) % w.len()];
+            plain.add_item(it);
+            restored.add_item(it);
+            steps += 1;
+            let js = match restored.to_json() {
+                Ok(j) => j,
+                Err(e) => return (steps, vec![(Violation { sig: format!("{}.serialize:error", T::NAME), detail: e }, k)]),
+            };
+            if js.contains("null") {
+                continue;
+            }
+            let r = match guarded(|| T::from_json(&js)) {
+                Ok(Ok(r)) => r,
+                Ok(Err(e)) | Err(e) => return (steps, vec![(Violation { sig: format!("{}.deserialize:error", T::NAME), detail: format!("after {k} observations, {js}: {e}") }, k)]),
+            };
+            if r.dbg() != plain.dbg() || !r.observe_().bits_eq(&plain.observe_()) {
+                return (
+                    steps,
+                    vec![(
+                        Violation {
+                            sig: format!("{}.roundtrip:diverges-from-uninterrupted", T::NAME),
+                            detail: format!("checkpointing after every observation, after {k} observations the restored estimator is {} but the uninterrupted one is {}", r.dbg(), plain.dbg()),
+                        },
+                        k,
+                    )],
+                );
+            }
+            restored = r;
+        }
+        (steps, vec![])
+    }
+}
+impl<T: SerChunky> Check for SerLasso<T> {
+    fn name(&self) -> String {
+        format!("C18/serde-every-position/{}/{}/w{}/n{}", T::NAME, self.alpha_name, self.max_word, self.n)
+    }
+    fn run(&self) -> crate::explore::Stats {
+        use rayon::prelude::*;
+        let t0 = std::time::Instant::now();
+        let words = self.words();
+        let mut st = crate::explore::Stats { spec: self.name(), depth_requested: self.n, depth_completed: self.n, ..Default::default() };
+        let res: Vec<(u64, Vec<(Violation, usize)>)> = words.par_iter().map(|w| self.run_word(w)).collect();
+        let mut found: std::collections::BTreeMap<String, crate::explore::Found> = Default::default();
+        for (w, (steps, vs)) in words.iter().zip(res) {
+            st.states += steps;
+            st.transitions += 2 * steps;
+            st.maximal += 1;
+            for (v, k) in vs {
+                let e = found.entry(v.sig.clone()).or_insert(crate::explore::Found { sig: v.sig, detail: v.detail, path: vec![json!({"word": w.iter().map(|i| T::item_json(i)).collect::<Vec<_>>()}), json!({"upto": k})], count: 0 });
+                e.count += 1;
+            }
+        }
+        st.nontrivial_states = st.states;
+        st.outcomes = st.maximal;
+        st.samples.push(json!({"spec": self.name(), "history": [{"word": words[words.len() / 2].iter().map(|i| T::item_json(i)).collect::<Vec<_>>()}, {"repeated_to": self.n}, "checkpoint after every add"]}));
+        st.found = found.into_values().collect();
+        st.wall_s = t0.elapsed().as_secs_f64();
+        st
+    }
+    fn replay(&self, path: &[Value]) -> Result<Vec<Violation>, String> {
+        let w: Vec<T::Item> = path.first().and_then(|v| v.get("word")).and_then(|w| w.as_array()).ok_or("no word")?.iter().map(|i| T::item_parse(i)).collect::<Option<Vec<_>>>().ok_or("bad word")?;
+        Ok(self.run_word(&w).1.into_iter().map(|(v, _)| v).collect())
+    }
+}
+fn serl<T: SerChunky>(name: &str, alpha: Vec<T::Item>, max_word: usize, n: usize) -> Box<dyn Check> {
+    Box::new(SerLasso::<T> { alpha_name: name.into(), alpha, max_word, n })
+}
+
 pub fn plan(tier: Tier) -> Plan {
     let q = tier == Tier::Quick;
     let d = if q { 4 } else { 6 };
@@ -228,7 +322,33 @@ pub fn plan(tier: Tier) -> Plan {
         checks.push(ser::<QP<1>>(a, al.clone(), dq));
         checks.push(ser::<QP<2>>(a, al.clone(), dq));
         checks.push(ser::<QP<3>>(a, al.clone(), dq));
+        checks.push(ser::<QP<4>>(a, al.clone(), dq));
+        checks.push(ser::<QP<5>>(a, al.clone(), dq));
+        checks.push(ser::<QP<6>>(a, al.clone(), dq));
+        checks.push(ser::<QP<7>>(a, al.clone(), dq));
     }
+    // a checkpoint after every observation of long periodic streams
+    let n = if q { 200 } else { 5000 };
+    for a in ["tri", "qties", "dec"] {
+        let al = sub_alphabet(a, 3);
+        checks.push(serl::<QP<0>>(a, al.clone(), 3, n));
+        checks.push(serl::<QP<1>>(a, al.clone(), 3, n));
+        checks.push(serl::<QP<2>>(a, al.clone(), 3, n));
+        checks.push(serl::<QP<3>>(a, al.clone(), 3, n));
+        checks.push(serl::<QP<4>>(a, al.clone(), 3, n));
+        checks.push(serl::<QP<5>>(a, al.clone(), 3, n));
+        checks.push(serl::<QP<6>>(a, al.clone(), 3, n));
+        checks.push(serl::<QP<7>>(a, al.clone(), 3, n));
+        checks.push(serl::<U<Mean>>(a, al.clone(), 3, n));
+        checks.push(serl::<U<Variance>>(a, al.clone(), 3, n));
+        checks.push(serl::<U<Skewness>>(a, al.clone(), 3, n));
+        checks.push(serl::<U<Kurtosis>>(a, al.clone(), 3, n));
+        checks.push(serl::<U<Moments4>>(a, al.clone(), 3, n));
+        checks.push(serl::<U<M10>>(a, al.clone(), 2, n));
+    }
+    checks.push(serl::<WeightedMeanWithError>("w3", vec![(-1., 0.), (0.1, 0.5), (3., 1e6)], 3, n));
+    checks.push(serl::<Covariance>("corr3", vec![(1., 5.), (2., 4.1), (-3., 0.1)], 3, n));
+    checks.push(serl::<HistChunk<average::Histogram10>>("samples", vec![0.5, 4.5, 9.5], 2, n));
     let wp = vec![(-1., 0.), (0.1, 0.5), (3., 1e6)];
     checks.push(ser::<WeightedMean>("w3", wp.clone(), d));
     checks.push(ser::<WeightedMeanWithError>("w3", wp, d));
@@ -238,7 +358,7 @@ pub fn plan(tier: Tier) -> Plan {
     checks.push(ser::<HistChunk<average::Histogram10>>("samples", vec![0.5, 4.5, 9.5], d));
     checks.push(ser::<HistChunk<H100>>("samples", vec![0.5, 50.5, 99.5], if q { 3 } else { 4 }));
     Plan {
-        rule: "for every serialisable estimator type: BFS over add(x) (3-value alphabets), merge(collect(w)) for every word w of length <= 2, and checkpoint = serde_json (float_roundtrip) to_string -> from_str replacing the object; at EVERY reachable state (position 0, inside Quantile's <5 phase, between merges) the checkpoint transition is checked differentially: serialising leaves the Debug string unchanged, the restored object's Debug string and every accessor are bit-identical, and every continuation of up to two further operations stays bit-identical on both copies; states whose JSON contains a non-finite field (fresh Min/Max) are outside the statement and counted as trivial".into(),
+        rule: "long periodic streams (every word of length <= 3 repeated to n = 200 / 5000) with a checkpoint after EVERY observation, the restored copy carried forward next to the uninterrupted one (Quantile at eight values of p incl. non-dyadic 0.2, 1/3, 0.9, 0.99); AND for every serialisable estimator type: BFS over add(x) (3-value alphabets), merge(collect(w)) for every word w of length <= 2, and checkpoint = serde_json (float_roundtrip) to_string -> from_str replacing the object; at EVERY reachable state (position 0, inside Quantile's <5 phase, between merges) the checkpoint transition is checked differentially: serialising leaves the Debug string unchanged, the restored object's Debug string and every accessor are bit-identical, and every continuation of up to two further operations stays bit-identical on both copies; states whose JSON contains a non-finite field (fresh Min/Max) are outside the statement and counted as trivial".into(),
         assumptions: {
             let mut a = common_assumptions();
             a.push("serde_json with float_roundtrip is a lossless format for finite f64 and u64/i64".into());
